@@ -56,12 +56,29 @@ func (aux *Aux) Call(gf slip.Object, s *slip.Scope, args slip.List, depth int) s
 		slip.ErrorPanic(s, depth, "generic-function %s requires at least %d arguments. Received %d.",
 			aux.docs.Name, aux.reqCnt, len(args))
 	}
-	aux.moo.Lock()
-	if aux.defaultCaller != nil {
-		caller := aux.defaultCaller
-		aux.moo.Unlock()
+	caller, meth := aux.effective(args)
+	if caller != nil {
 		slip.VerifPoint("generic.call.default")
 		return caller.Call(s, args, depth)
+	}
+	slip.VerifPoint("generic.call.after-lookup")
+	if meth != nil {
+		return meth.Call(s, args, depth)
+	}
+	// No matches on methods so call no-applicable-method (g, args...).
+	nam := slip.MustFindFunc("no-applicable-method")
+
+	return nam.Apply(s, append(slip.List{gf}, args...), depth)
+}
+
+// effective returns the default caller or the effective method for the
+// arguments. The lock is released by a defer since forming the key and
+// building the method call into the argument classes and can panic.
+func (aux *Aux) effective(args slip.List) (caller slip.Caller, meth *slip.Method) {
+	aux.moo.Lock()
+	defer aux.moo.Unlock()
+	if aux.defaultCaller != nil {
+		return aux.defaultCaller, nil
 	}
 	// Any further argument checking gets tricky as optinal could be keywords
 	// depending on then method's forms.
@@ -74,21 +91,12 @@ func (aux *Aux) Call(gf slip.Object, s *slip.Scope, args slip.List, depth int) s
 		}
 	}
 	key := buildSpecKey(args[:aux.reqCnt])
-	meth := aux.cache[key]
-	if meth == nil {
+	if meth = aux.cache[key]; meth == nil {
 		if meth = aux.buildCacheMeth(args); meth != nil {
 			aux.cache[key] = meth
 		}
 	}
-	aux.moo.Unlock()
-	slip.VerifPoint("generic.call.after-lookup")
-	if meth != nil {
-		return meth.Call(s, args, depth)
-	}
-	// No matches on methods so call no-applicable-method (g, args...).
-	nam := slip.MustFindFunc("no-applicable-method")
-
-	return nam.Apply(s, append(slip.List{gf}, args...), depth)
+	return
 }
 
 // AddMethod adds a method to the Aux.
